@@ -5,7 +5,8 @@ Directives inside a layer-X job file (verus/extract/*.rs):
   //@ splice-fn <repo file> <impl selector | -> <fn name> [ret=<name>] [drop=debug_assert] [subst="old=>new;;old2=>new2"] [vis=keep|strip]
   //@| requires ...            <- contract lines, copied between the extracted signature and the body
   //@| ensures  ...
-  //@ splice-item <repo file> <first line prefix of the item>   (struct / const / enum / type, attributes dropped)
+  //@ splice-item <repo file> <first line prefix of the item> [else=1]  (struct / const / enum / type, or any
+  //@             brace-delimited block such as a `match`; attributes dropped; else=1 keeps the else chain of an `if`)
 
 What the extraction drops or rewrites is exactly (and is echoed into the evidence):
   * attribute lines (`#[inline]`, `#[must_use]`, `#[cfg_attr(..)]`, derives) and comments;
@@ -201,6 +202,12 @@ def splice_item(rel, prefix, opts=None):
     ob = find_code(text, r"\{", m.start())
     if ob and (not semi or ob.start() < semi.start()):
         end = match_brace(text, ob.start()) + 1
+        # else=1: an `if .. { .. }` statement is extracted together with its `else [if ..] { .. }` chain
+        while opts and opts.get("else"):
+            m2 = re.match(r"\s*else\b[^{;]*\{", text[end:])
+            if not m2:
+                break
+            end = match_brace(text, end + m2.end() - 1) + 1
     elif semi:
         end = semi.end()
     else:
@@ -267,6 +274,7 @@ def expand_splices(body):
             sub, d = expand_splices("\n".join(l for l in open(inc).read().split("\n") if not l.startswith("//@ verus")))
             out.append("// ---- included job %s ----" % s.split()[2])
             out.append(sub)
+            out.append("// ---- end included job %s ----" % s.split()[2])
             dropped += d
             i += 1
             continue
